@@ -1,12 +1,13 @@
 #!/bin/bash
 # usage: scripts/try_seeded.sh <dir with patch.diff demo.py> <property> [tier]
-# Applies a seeded change to /repo, runs the demonstration and the property's check, and always restores /repo.
-D="$1"; P="$2"; T="${3:-quick}"
-cd /repo || exit 9
-if [ -n "$(git status --porcelain)" ]; then echo "repo dirty, abort"; exit 9; fi
+# Applies a seeded change to a SCRATCH COPY of /repo's packages (never to /repo itself: sub-agents may be reading it), runs the
+# demonstration and the property's check against the copy (VERIF_REPO / VERIF_OUT), and removes the copy.
+D="$(cd "$1" && pwd)"; P="$2"; T="${3:-quick}"
+S=$(mktemp -d /tmp/try_seeded.XXXXXX)
+trap 'rm -rf "$S"' EXIT
+for p in cirq-core cirq-google cirq-ionq cirq-aqt cirq-pasqal; do cp -r /repo/$p "$S/"; done
 echo "== demo on original:"; TREE=/repo /venv/bin/python "$D/demo.py" >/dev/null 2>&1; echo "   exit=$?"
-git apply "$D/patch.diff" || { echo "patch does not apply"; exit 9; }
-echo "== demo on change:";  TREE=/repo /venv/bin/python "$D/demo.py" >/dev/null 2>&1; echo "   exit=$?"
+(cd "$S" && patch -p1 -s --no-backup-if-mismatch < "$D/patch.diff") || { echo "patch does not apply"; exit 9; }
+echo "== demo on change:";  TREE="$S" /venv/bin/python "$D/demo.py" >/dev/null 2>&1; echo "   exit=$?"
 echo "== check $P ($T) on change:"
-(cd /verif && ./check "$P" --tier "$T" 2>&1 | grep -E "VIOLATION|KNOWN|UNDECIDED|CHECKER|^\[" | cut -c1-400; echo "   check exit=${PIPESTATUS[0]}")
-git checkout -- . ; git status --porcelain | head -3
+(cd /verif && VERIF_REPO="$S" VERIF_OUT="$S/out" ./check "$P" --tier "$T" 2>&1 | grep -E "VIOLATION|KNOWN|UNDECIDED|CHECKER|^\[" | cut -c1-400; echo "   check exit=${PIPESTATUS[0]}")
